@@ -12,6 +12,7 @@ package main
 // enabled is a deadlock (reported unless the harness quiesces on purpose).
 
 import (
+	"strings"
 	"fmt"
 	"go/token"
 	"go/types"
@@ -28,6 +29,7 @@ type goroutine struct {
 	why     string
 	depth   int
 	isMain  bool
+	points  int // number of instrumentation points (vxSchedPoint) this goroutine has passed
 }
 
 type schedEvent struct {
@@ -65,6 +67,37 @@ type scheduler struct {
 	trace    []string
 	quiesced bool
 	preemptions int
+	// evlog: the global order in which visible operations took effect, as (goroutine, index of the
+	// instrumentation point in front of the operation); the guided native replay follows this order
+	evlog []schedPoint
+}
+
+type schedPoint struct{ g, k int }
+
+// record notes that the operation behind g's current instrumentation point takes effect now.
+func (s *scheduler) record(g *goroutine) {
+	if g == nil {
+		g = s.cur
+	}
+	if g == nil {
+		return
+	}
+	p := schedPoint{g.id, g.points}
+	if n := len(s.evlog); n > 0 && s.evlog[n-1] == p {
+		return
+	}
+	s.evlog = append(s.evlog, p)
+}
+
+func (s *scheduler) scheduleString() string {
+	var sb strings.Builder
+	for k, p := range s.evlog {
+		if k > 0 {
+			sb.WriteByte(',')
+		}
+		fmt.Fprintf(&sb, "%d:%d", p.g, p.k)
+	}
+	return sb.String()
 }
 
 type killed struct{}
@@ -92,6 +125,7 @@ func (s *scheduler) start(g *goroutine, fn value, args []value) {
 			return
 		}
 		var pv any
+		s.record(g) // (g, 0): the goroutine starts running
 		func() {
 			defer func() { pv = recover() }()
 			fr := &frame{i: s.i, g: g}
@@ -254,6 +288,7 @@ func (s *scheduler) lock(fr *frame, m *value) {
 	st := s.mstate(m)
 	s.park(fr, "Lock", func() bool { return !st.locked && st.readers == 0 })
 	st.locked = true
+	s.record(fr.g)
 }
 
 func (s *scheduler) unlock(fr *frame, m *value) {
@@ -262,6 +297,7 @@ func (s *scheduler) unlock(fr *frame, m *value) {
 		panic(targetPanic{iface{s.i.runtimeErrorString, "sync: unlock of unlocked mutex"}})
 	}
 	st.locked = false
+	s.record(fr.g)
 	// releasing a lock nobody waits for enables no goroutine: the next pre-emption point is this
 	// goroutine's next visible operation (local steps in between are independent of the others)
 	if s.someoneWaits() {
@@ -323,6 +359,7 @@ func (s *scheduler) condWait(fr *frame, c *value) {
 		panic(targetPanic{iface{s.i.runtimeErrorString, "sync: unlock of unlocked mutex"}})
 	}
 	mst.locked = false
+	s.record(fr.g)
 	// atomically: unlock and sleep; after the wake-up, re-acquire the lock
 	s.park(fr, "Cond.Wait", func() bool { return w.woken })
 	s.park(fr, "Cond.Wait(relock)", func() bool { return !mst.locked && mst.readers == 0 })
@@ -331,6 +368,7 @@ func (s *scheduler) condWait(fr *frame, c *value) {
 
 func (s *scheduler) condSignal(fr *frame, c *value, all bool) {
 	woke := false
+	s.record(fr.g)
 	if cst := s.conds[c]; cst != nil {
 		for len(cst.waiters) > 0 {
 			w := cst.waiters[0]
@@ -365,6 +403,7 @@ func (s *scheduler) wgCounter(w *value) *int {
 func (s *scheduler) wgAdd(fr *frame, w *value, delta int) {
 	c := s.wgCounter(w)
 	*c += delta
+	s.record(fr.g)
 	if *c < 0 {
 		panic(targetPanic{iface{s.i.runtimeErrorString, "sync: negative WaitGroup counter"}})
 	}
@@ -373,6 +412,7 @@ func (s *scheduler) wgAdd(fr *frame, w *value, delta int) {
 
 func (s *scheduler) wgWait(fr *frame, w *value) {
 	c := s.wgCounter(w)
+	s.record(fr.g)
 	s.park(fr, "WaitGroup.Wait", func() bool { return *c == 0 })
 }
 
@@ -462,6 +502,7 @@ func (s *scheduler) complete(g *goroutine, cs chanCase) (v value, ok bool) {
 func (s *scheduler) chanOps(fr *frame, cases []chanCase, blocking bool, why string) (idx int, v value, ok bool) {
 	g := fr.g
 	s.park(fr, why, nil) // pre-emption point before the operation
+	s.record(g)
 	readyIdx := func() []int {
 		var r []int
 		for k, cs := range cases {
@@ -546,6 +587,7 @@ func (s *scheduler) recv(fr *frame, c *gchan) (value, bool) {
 
 func (s *scheduler) closeChan(fr *frame, c *gchan) {
 	s.park(fr, "close", nil)
+	s.record(fr.g)
 	if c.closed {
 		panic(targetPanic{iface{s.i.runtimeErrorString, "close of closed channel"}})
 	}
